@@ -30,7 +30,7 @@ sim::Json generate(const std::string& tier, uint64_t seed, uint64_t index) {
   gen::Model m = gen::generate(rng, go);
 
   bool ampl = rng.chance(0.7);
-  sim::Json sc = model_scenario(m, ampl);
+  sim::Json sc = model_scenario(m, ampl, rng.chance(0.3));
   std::string label = m.linear_clean ? "LINEAR_CLEAN" : "GENERAL";
   int wantsol = ampl ? 1 : 0;
   if (!ampl) {
